@@ -49,13 +49,16 @@ def run(chk):
         "alias-first": [M(0, "W1"), M(1, "W4"), M(2, "W2"), M(3, "W3"), S, D(1), D(2), D(3), D(4)],
         "reorg": [M(0, "W1"), M(1, "W2"), M(1, "W3"), M(3), M(4, "W2"), M(4, "W4"), S, D(1), D(2), D(3), D(4), D(5), D(6)],
         "orphans": [M(0, "W1"), M(1, "W2"), M(2, "W4"), M(3, "W3"), S, D(4), D(3), D(2), D(1)],
+        # a two-input transaction whose FIRST input is unspent and whose second one is spent (and the other order)
+        "second-input-spent": [M(0, "T1"), M(1, "T6"), M(2, "T7"), M(2), S, D(1), D(2), D(3), D(4)],
+        "second-input-spent-reorg": [M(0, "T1"), M(1, "T7"), M(1, "T6"), M(3, "T7"), M(3), M(5), S, D(1), D(2), D(3), D(4), D(5), D(6)],
     }
     wb = []
     for name, steps in sorted(scen.items()):
         items = ", ".join('<<"%s", %d, <<%s>>, "%s">>' % (a_, b_, ", ".join('"%s"' % t for t in c_), d_) for a_, b_, c_, d_ in steps)
         script = ("---------------------------- MODULE LedgerScript ----------------------------\nScript == << %s >>\n"
                   "=============================================================================\n" % items)
-        c_text = L.cfg(["W1", "W2", "W3", "W4"], 8, 1, 0, 8, fix=L.reorg_fix_expected(), extra="ACTION_CONSTRAINT SEmit") \
+        c_text = L.cfg(sorted({t for st_ in steps if st_[0] == "M" for t in st_[2]}) or ["T1"], 8, 1, 0, 8, fix=L.reorg_fix_expected(), extra="ACTION_CONSTRAINT SEmit") \
             .replace("SPECIFICATION Spec", "SPECIFICATION SSpec")
         r = vf.tlc("Chain", "LedgerScenario", "ws.cfg", cfg_text=c_text, files={"LedgerScript.tla": script}, workers=1, timeout=600)
         vf.tlc_ok(r, "wide scenario " + name)
